@@ -474,6 +474,10 @@ def shrink_candidates(c):
 
 
 def run(ctx):
+    # the statement structure of updateVPNIdx is regenerated: theorem C17_generated_index_update_is_the_model_step is about it
+    okt, changed, logt = core.generate("c17idx", "C17Idx")
+    if not okt:
+        ctx.say("translator target c17idx failed: " + logt[-300:])
     proof = core.coq_properties("C17")
     ctx.say("proof stage: ok=%s theorems=%d audit=%d (%.1fs)" % (proof["ok"], len(proof["theorems"]), len(proof["audit"]), proof.get("wall_s", 0)))
     n = ctx.scale(1200, 30000)
